@@ -119,6 +119,18 @@ def gen(read):
             raise Shape("headroom: a message buffer is taken in a way the lint does not know: `%s`" % outside[line_start:outside.find("\n", a.start())].strip())
     if n_sites < 3:
         raise Shape("headroom: only %d message-buffer acquisitions recognised" % n_sites)
+    # 5. is the batch write raced with the close channel and the shutdown token?  (the call of write_iovs in the loop
+    #    body sits inside a tokio::select! block that also polls close_rx.recv() and `cancelled`)
+    raced = False
+    wi = re.search(r"Self::write_iovs\s*\(", body)
+    if not wi:
+        raise Shape("headroom: the batch write (Self::write_iovs) not found in the connection loop")
+    for sm in re.finditer(r"tokio::select!\s*\{", body):
+        e = close(body, sm.end() - 1)
+        inner = body[sm.end():e]
+        # the innermost select containing the write, other than the loop's main select (which contains the whole arm)
+        if sm.start() < wi.start() < e and "stream_reader" not in inner:
+            raced = re.search(r"close_rx\s*\.\s*recv\s*\(", inner) is not None and re.search(r"\bcancelled\b", inner) is not None
     bl = lambda x: "true" if x else "false"
     return "\n".join([
         "(* GENERATED by translator/headroom.py from /repo/crates/common/src/conn.rs — do not edit *)",
@@ -134,7 +146,9 @@ def gen(read):
         "(* that permit is stored with the batch, and the stored permits are cleared after release_buffers *)",
         "Definition permits_kept_until_release : bool := %s." % bl(kept and order_ok),
         "(* awaited acquisitions outside the batch-growing loop: the read buffer, the first buffer of a batch, transient error frames *)",
-        "Definition single_buffer_sites : N := %d%%N." % n_sites, ""])
+        "Definition single_buffer_sites : N := %d%%N." % n_sites,
+        "(* the batch write is awaited inside a select! that also polls the close channel and the shutdown token *)",
+        "Definition write_raced_with_close : bool := %s." % bl(raced), ""])
 
 
 def fallback(msg):
@@ -144,7 +158,8 @@ def fallback(msg):
         "From Coq Require Import NArith.", "",
         "Definition pool_per_connection : N := 0%N.", "Definition pool_per_iovs : N := 0%N.", "Definition pool_constant : N := 0%N.",
         "Definition permits_per_iovs : N := 0%N.", "Definition extras_guarded : bool := false.",
-        "Definition permits_kept_until_release : bool := false.", "Definition single_buffer_sites : N := 0%N.", ""])
+        "Definition permits_kept_until_release : bool := false.", "Definition single_buffer_sites : N := 0%N.",
+        "Definition write_raced_with_close : bool := false.", ""])
 
 
 if __name__ == "__main__":
